@@ -60,3 +60,26 @@ Theorem old_empty_merge_refuted :
 Proof. vm_compute. split; reflexivity. Qed.
 Theorem new_empty_merge_ok : merge [] = Ok init_ts /\ merge [init_ts_nodoc; init_ts_nodoc] = Ok init_ts.
 Proof. vm_compute. split; reflexivity. Qed.
+
+(* ---- limits of the statements proved in MergeProofs3.v (witnesses on the CURRENT mechanism) ---- *)
+(* success depends on the argument order when the side condition fails: a.B competes for a.X and is itself declared
+   with two supertypes, so comparing a.A and a.B hinges on the pending re-parenting of a.B *)
+Definition oi_1 : tsys := mk [CT "a.A" ANNOTATION; CT "a.B" ANNOTATION; CT "a.X" "a.A"].
+Definition oi_2 : tsys := mk [CT "a.A" ANNOTATION; CT "a.B" ANNOTATION; CT "a.X" "a.B"].
+Definition oi_3 : tsys := mk [CT "a.A" ANNOTATION; CT "a.B" "a.A"].
+Theorem order_independence_without_side_condition_refuted :
+  merge [oi_1; oi_2; oi_3] = Err EValue /\ exists ts, merge [oi_3; oi_1; oi_2] = Ok ts /\ wfb ts = true /\ super_of ts "a.X" = Some "a.B".
+Proof. split; [vm_compute; reflexivity|]. eexists. vm_compute. repeat split. Qed.
+(* the replay theorem needs its premise "t contains TypeSystem()": the merge always starts from TypeSystem() *)
+Theorem replay_without_document_annotation_refuted :
+  exists r, merge [init_ts_nodoc] = Ok r /\ ts_equiv r init_ts_nodoc = false.
+Proof. eexists. vm_compute. split; reflexivity. Qed.
+(* a replayed type system has the same effective features, but an own feature that duplicates an inherited one (declared
+   on the subtype first, then identically on the supertype) is not stored again: Type.features may shrink *)
+Definition dup_own : tsys :=
+  mk [CT "a.A" ANNOTATION; CT "a.B" "a.A"; CF "a.B" "f" "uima.cas.String" None; CF "a.A" "f" "uima.cas.String" None].
+Definition own_names (ts : tsys) (n : tname) : list fname := match find_ty ts n with Some t => map f_name (t_own t) | None => [] end.
+Theorem replay_own_features_exact_refuted :
+  exists r, wfb dup_own = true /\ merge [dup_own] = Ok r /\ ts_equiv r dup_own = true /\
+    own_names dup_own "a.B" = ["f"] /\ own_names r "a.B" = [] /\ memb "f" (feats_of r "a.B") = true.
+Proof. eexists. vm_compute. repeat split. Qed.
